@@ -9,8 +9,10 @@ def is_any_dimension(factor: Expr) -> bool:
     absorbing nature.
     """
 
-    # NOTE: a floating point zero does not compare equal to `S.Zero`, hence the `is_zero` query
-    return factor in (S.Zero, S.Infinity, S.NegativeInfinity, S.NaN) or getattr(factor, "is_zero", None) is True
+    # NOTE: a floating point zero does not compare equal to `S.Zero`, hence the `is_zero` query. Likewise
+    # division by a zero quantity gives a complex infinity that is not one of the singletons.
+    return (factor in (S.Zero, S.Infinity, S.NegativeInfinity, S.NaN) or getattr(factor, "is_zero", None) is True or
+        getattr(factor, "is_infinite", None) is True)
 
 
 def is_number(value: Any) -> bool:
